@@ -100,7 +100,8 @@ macro Rec(e) {
 
 \* ---------------------------------------------------------------- reader
 fair process (Reader = "rd")
-{ rds: await started;
+{ rds: await started;                                 \* go c.readLoop(readerCtx)
+       Rec([a |-> "RdStart", p |-> "rd", src |-> Src("rd")]);
   rd0: while (TRUE) {
          either {                                    \* Delivery.Receive returns a message
            with (m \in BagToSet(wire)) {
@@ -301,10 +302,11 @@ Init == (* Global variables *)
 
 rds == /\ pc["rd"] = "rds"
        /\ started
+       /\ h' = (IF RecordH = "off" THEN h ELSE IF RecordH = "last" THEN <<([a |-> "RdStart", p |-> "rd", src |-> Src("rd")])>> ELSE Append(h, ([a |-> "RdStart", p |-> "rd", src |-> Src("rd")])))
        /\ pc' = [pc EXCEPT !["rd"] = "rd0"]
        /\ UNCHANGED << wire, sendLeft, hand, rdWhy, boxes, buffered, started, 
                        stopped, fatal, callArg, cancelled, res, nCancel, 
-                       nClose, nFail, arr, ep, h >>
+                       nClose, nFail, arr, ep >>
 
 rd0 == /\ pc["rd"] = "rd0"
        /\ \/ /\ \E m \in BagToSet(wire):
@@ -585,46 +587,50 @@ NoCrossTalk ==
 
 \* the step that returns a set returns, per sender, the first payload of the current epoch
 \* and nothing else arrived for it in that epoch
-ExactRouting ==
-  [][\A w \in Calls : (res[w].kind # "ok" /\ res'[w].kind = "ok") =>
+ExactRoutingStep ==
+  \A w \in Calls : (res[w].kind # "ok" /\ res'[w].kind = "ok") =>
         \A f \in Froms(w) : /\ Ep(Cid(w), f) <= Len(Arr(Cid(w), f))
                              /\ res'[w].pay[f] = Arr(Cid(w), f)[Ep(Cid(w), f)]
                              /\ \A i \in Ep(Cid(w), f)..Len(Arr(Cid(w), f)) : Arr(Cid(w), f)[i] = res'[w].pay[f]
                              /\ <<Cid(w), f>> \notin {<<t[1], t[2]>> : t \in Contents'}
-                             /\ buffered' = buffered - Cardinality(Froms(w))]_vars
+                             /\ buffered' = buffered - Cardinality(Froms(w))
+ExactRouting == [][ExactRoutingStep]_vars
 
+DepositsDup == /\ pc["rd"] = "dep" /\ pc'["rd"] # "dep" /\ hand.cid \in DOMAIN boxes
+               /\ hand.from \in DOMAIN boxes[hand.cid].pay
 \* an identical retransmission changes nothing
-DupAbsorbed ==
-  [][(pc["rd"] = "dep" /\ pc'["rd"] # "dep" /\ hand.cid \in DOMAIN boxes
-        /\ hand.from \in DOMAIN boxes[hand.cid].pay /\ boxes[hand.cid].pay[hand.from] = hand.pay)
-      => UNCHANGED <<boxes, buffered, fatal>>]_vars
+DupAbsorbedStep ==
+  (DepositsDup /\ boxes[hand.cid].pay[hand.from] = hand.pay) => UNCHANGED <<boxes, buffered, fatal>>
+DupAbsorbed == [][DupAbsorbedStep]_vars
 
 \* a conflicting retransmission poisons the mailbox, blames its sender and wakes the waiter;
 \* poison is only ever raised against a sender that really sent two different payloads
-ConflictPoisons ==
-  [][(pc["rd"] = "dep" /\ pc'["rd"] # "dep" /\ hand.cid \in DOMAIN boxes
-        /\ hand.from \in DOMAIN boxes[hand.cid].pay /\ boxes[hand.cid].pay[hand.from] # hand.pay)
+ConflictPoisonsStep ==
+  (DepositsDup /\ boxes[hand.cid].pay[hand.from] # hand.pay)
       => /\ boxes'[hand.cid].poison = hand.from
          /\ boxes'[hand.cid].pay = boxes[hand.cid].pay /\ buffered' = buffered
-         /\ (boxes[hand.cid].notify # NoCall /\ ~Unbuffered) => boxes'[hand.cid].token]_vars
+         /\ (boxes[hand.cid].notify # NoCall /\ ~Unbuffered) => boxes'[hand.cid].token
+ConflictPoisons == [][ConflictPoisonsStep]_vars
 BlamesSender ==
   /\ \A c \in DOMAIN boxes : boxes[c].poison # 0 => Equivocated(c, boxes[c].poison)
   /\ \A w \in Calls : res[w].kind = "poison" => res[w].blame \in Quorum /\ Equivocated(Cid(w), res[w].blame)
 ConflictPoisonsAndBlamesSender == BlamesSender
 
 \* cancelling, returning the context error and the clean-up lose no buffered payload
-CancelLosesNothing ==
-  [][\A w \in Calls :
+CancelLosesNothingStep ==
+  \A w \in Calls :
        (\/ cancelled'[w] # cancelled[w]
         \/ (res[w].kind # "ctx" /\ res'[w].kind = "ctx")
         \/ (pc[w] = "cl" /\ pc'[w] = "done"))
-       => Contents' = Contents /\ buffered' = buffered]_vars
+       => Contents' = Contents /\ buffered' = buffered
+CancelLosesNothing == [][CancelLosesNothingStep]_vars
 
 \* the first failure is latched and reported to every later and every pending call
-FailureLatched ==
-  [][/\ fatal # "none" => fatal' = fatal
-     /\ \A w \in Calls : (pc[w] = "en" /\ pc'[w] # "en" /\ fatal # "none")
-                           => res'[w].kind = "fatal" /\ res'[w].why = fatal /\ UNCHANGED boxes]_vars
+FailureLatchedStep ==
+  /\ fatal # "none" => fatal' = fatal
+  /\ \A w \in Calls : (pc[w] = "en" /\ pc'[w] # "en" /\ fatal # "none")
+                        => res'[w].kind = "fatal" /\ res'[w].why = fatal /\ UNCHANGED boxes
+FailureLatched == [][FailureLatchedStep]_vars
 FatalResults == \A w \in Calls : res[w].kind = "fatal" => res[w].why = fatal
 
 \* safety form: a call waiting (window or select) whose outcome is decided has a pending token
